@@ -289,6 +289,8 @@ func listExplorer(depth int) *tt.Explorer {
 					r = append(r, op("insbefore", x, fresh))
 				}
 			}
+			// the same value as old and as new: a no-op for a value that is there, absence for one that is not
+			r = append(r, op("replace", 99, 99), op("replace", path[0].A[0], path[0].A[0]))
 			return r
 		},
 		SplitDepth: 2,
